@@ -190,6 +190,14 @@ func c09Gen(tier string, seed int64) []fw.Case {
 				}
 			}
 		}
+		// a keep-alive Ping issued by another goroutine while Close is already waiting for the silent peer's Close frame
+		for _, adv := range []string{"silent", "stall-in-frame"} {
+			for _, cl := range []string{"Close"} {
+				for i := 0; i < tierPick(tier, 2, 6); i++ {
+					add(c09Desc{Role: role, Adversary: adv, Frame: "text-5", StallAt: 3, State: "pinger-starts-during-close", Closer: cl})
+				}
+			}
+		}
 		// message writers around the close: one left open and closed only after the connection has been closed,
 		// and one that was written to again after its Close (an error) long before
 		for _, adv := range []string{"silent", "late-echo", "half-close"} {
@@ -381,6 +389,13 @@ func c09Run(r *fw.R, d c09Desc) {
 					return
 				}
 			}
+		})
+	case "pinger-starts-during-close":
+		block("Ping", func() {
+			time.Sleep(300 * time.Millisecond) // Close has written its frame and waits for the peer's by now
+			pctx, pc := context.WithTimeout(ctx, 30*time.Second)
+			defer pc()
+			c.Ping(pctx)
 		})
 	case "writer-open-closed-afterwards":
 		w, err := c.Writer(ctx, websocket.MessageText)
